@@ -193,9 +193,6 @@ func (r *Runner) Finish() []Mismatch {
 }
 
 func (r *Runner) exec(st Step, res *StepResult) {
-	bad := func(cat, f string, a ...any) {
-		res.Mismatches = append(res.Mismatches, Mismatch{cat, fmt.Sprintf(f, a...)})
-	}
 	pred := Predict(r.MW, r.Sc.Stack, st, r.fire)
 	res.Pred = pred
 	if pred.Discard != "" {
@@ -203,16 +200,23 @@ func (r *Runner) exec(st Step, res *StepResult) {
 		return
 	}
 
-	// ---- real run ----
 	r.execSeq++
 	id := r.execSeq
+	r.W.Rec.Reset()
+	r.W.Cache.TakeOps()
+	real := r.runReal(st, id)
+	real.Log = r.W.Rec.Snapshot()
+	real.CacheOps = r.W.Cache.TakeOps()
+	res.Real = real
+	r.compareExec(st, pred, real, id, res)
+}
+
+// runReal performs one execution on the real library. It does not touch the recorder's content besides appending.
+func (r *Runner) runReal(st Step, id int64) *RealResult {
 	w := r.W
-	w.Rec.Reset()
-	w.Cache.TakeOps()
 	ctx, cancel := context.WithCancel(context.Background())
 	defer cancel()
-	w.CancelCurrent = cancel
-	ctx = WithExecID(ctx, id)
+	ctx = WithCancelHandle(WithExecID(ctx, id), cancel)
 	switch {
 	case st.CtxKey == "int":
 		ctx = context.WithValue(ctx, cachepolicy.CacheKey, 42)
@@ -220,7 +224,6 @@ func (r *Runner) exec(st Step, res *StepResult) {
 		ctx = context.WithValue(ctx, cachepolicy.CacheKey, st.CtxKey[2:])
 	}
 	real := &RealResult{}
-	res.Real = real
 	idx := 0
 	fn := func(exec failsafe.Execution[int]) (int, error) {
 		var o Outcome
@@ -294,9 +297,13 @@ func (r *Runner) exec(st Step, res *StepResult) {
 		real.Val, real.Err = ex.GetWithExecutionAsync(fn).Get()
 	}
 	cancel()
-	real.Log = w.Rec.Snapshot()
-	real.CacheOps = w.Cache.TakeOps()
+	return real
+}
 
+func (r *Runner) compareExec(st Step, pred *Prediction, real *RealResult, id int64, res *StepResult) {
+	bad := func(cat, f string, a ...any) {
+		res.Mismatches = append(res.Mismatches, Mismatch{cat, fmt.Sprintf(f, a...)})
+	}
 	// ---- compare ----
 	if real.Hung {
 		bad("liveness", "the function stayed blocked for 30s beneath an always-fires timeout of %v", FireLimit)
@@ -558,4 +565,83 @@ func (r *Runner) compareState(res *StepResult) {
 			}
 		}
 	}
+}
+
+// RunConcurrent runs every exec step of the scenario at the same time through one shared executor stack (the scenario
+// must use instances without cross-execution state: retry, fallback, never-firing timeout, 1h hedge) and compares each
+// execution with the sequential model of its own script: an execution's behaviour must not depend on the others.
+func RunConcurrent(sc Scenario, noListeners bool) *ScenarioResult {
+	r := NewRunner(sc, noListeners)
+	out := &ScenarioResult{Discards: map[string]int{}, Lenient: map[string]int{}, Actions: map[string]int{}, EventKinds: map[string]bool{}}
+	type job struct {
+		st   Step
+		pred *Prediction
+		real *RealResult
+		id   int64
+	}
+	var jobs []*job
+	for _, st := range sc.Steps {
+		if st.Op != "exec" {
+			continue
+		}
+		mw := NewModelWorld(sc.Pool, sc.T0) // no shared state: each execution is predicted from a fresh world
+		mw.NoListeners = noListeners
+		p := Predict(mw, sc.Stack, st, false)
+		if p.Discard != "" {
+			out.Discards[p.Discard]++
+			continue
+		}
+		r.execSeq++
+		jobs = append(jobs, &job{st: st, pred: p, id: r.execSeq})
+	}
+	start := make(chan struct{})
+	done := make(chan struct{})
+	for _, j := range jobs {
+		go func(j *job) {
+			<-start
+			j.real = r.runReal(j.st, j.id)
+			done <- struct{}{}
+		}(j)
+	}
+	close(start)
+	for range jobs {
+		<-done
+	}
+	log := r.W.Rec.Snapshot()
+	for _, j := range jobs {
+		for _, e := range log {
+			if e.Exec == j.id {
+				j.real.Log = append(j.real.Log, e)
+			}
+		}
+		res := StepResult{Step: j.st, Pred: j.pred, Real: j.real}
+		j.real.CacheOps = j.pred.CacheOps // cache traffic is not attributable per execution here
+		r.compareExec(j.st, j.pred, j.real, j.id, &res)
+		out.Steps = append(out.Steps, res)
+		for _, m := range res.Mismatches {
+			out.Mismatches = append(out.Mismatches, Mismatch{m.Cat, fmt.Sprintf("concurrent execution %d: %s", j.id, m.Msg)})
+		}
+		if j.pred.Lenient != "" {
+			out.Lenient[j.pred.Lenient]++
+		} else {
+			out.Execs++
+		}
+		n := 0
+		for k, v := range j.pred.Actions {
+			out.Actions[k] += v
+			n += v
+		}
+		if n > out.MaxActions {
+			out.MaxActions = n
+		}
+	}
+	// entries that belong to no execution of this run would mean a listener was handed a foreign or missing context
+	for _, e := range log {
+		if e.Exec == 0 || e.Exec > r.execSeq {
+			out.Mismatches = append(out.Mismatches, Mismatch{"events/" + kindOf(&sc, e.Pol), fmt.Sprintf("%s.%s was called with a context that belongs to no execution", kindOf(&sc, e.Pol), e.Name)})
+			break
+		}
+	}
+	r.Ended = false
+	return out
 }
